@@ -14,18 +14,40 @@ fn guard<F: FnOnce() -> Option<String>>(f: F) -> String {
     }
 }
 
+thread_local! {
+    /// One receive buffer per thread, cleared and refilled for every parse operation the way a server
+    /// re-uses its read buffer: consecutive inputs then start at the SAME address, so state that a
+    /// parser keeps between calls keyed on the buffer (address, length) meets inputs it was not
+    /// computed for. The model is stateless: any dependence on history is a disagreement.
+    static RECV: std::cell::RefCell<Vec<u8>> = std::cell::RefCell::new(Vec::with_capacity(1 << 18));
+}
+
+/// Evaluates `f` on the input copied into the re-used receive buffer.
+fn in_recv_buffer<R>(input: &[u8], f: impl FnOnce(&[u8]) -> R) -> R {
+    RECV.with(|b| {
+        let mut b = match b.try_borrow_mut() {
+            Ok(b) => b,
+            // a previous operation unwound while holding the buffer: fall back to the caller's copy
+            Err(_) => return f(input),
+        };
+        b.clear();
+        b.extend_from_slice(input);
+        f(&b[..])
+    })
+}
+
 pub fn eval_line(line: &str) -> String {
     let (op, rest) = match line.split_once(' ') {
         Some((a, b)) => (a, b),
         None => (line, ""),
     };
     match op {
-        "v1b" => guard(|| Some(op_v1b(&unhex(rest)?))),
+        "v1b" => guard(|| Some(in_recv_buffer(&unhex(rest)?, op_v1b))),
         "v1s" => op_v1s(rest),
-        "v2" => guard(|| Some(op_v2(&bytes_spec(rest)?))),
-        "auto" => guard(|| Some(op_auto(&bytes_spec(rest)?))),
-        "tlv" => guard(|| Some(op_tlv(&bytes_spec(rest)?))),
-        "rb" => guard(|| Some(op_rb(&bytes_spec(rest)?))),
+        "v2" => guard(|| Some(in_recv_buffer(&bytes_spec(rest)?, op_v2))),
+        "auto" => guard(|| Some(in_recv_buffer(&bytes_spec(rest)?, op_auto))),
+        "tlv" => guard(|| Some(in_recv_buffer(&bytes_spec(rest)?, op_tlv))),
+        "rb" => guard(|| Some(in_recv_buffer(&bytes_spec(rest)?, op_rb))),
         "fmt1" => guard(|| Some(hex(parse_v1_addr(rest)?.to_string().as_bytes()))),
         "rt1" => guard(|| op_rt1(rest)),
         "bld" => guard(|| op_bld(rest)),
@@ -257,10 +279,13 @@ fn op_v1s(rest: &str) -> String {
         Some(b) => b,
         None => return "bad-op".to_string(),
     };
-    let s = match std::str::from_utf8(&bytes) {
-        Ok(s) => s,
-        Err(_) => return "notutf8".to_string(),
-    };
+    in_recv_buffer(&bytes, |buf| match std::str::from_utf8(buf) {
+        Ok(s) => op_v1s_inner(s),
+        Err(_) => "notutf8".to_string(),
+    })
+}
+
+fn op_v1s_inner(s: &str) -> String {
     let a = guard(|| {
         let r = v1::Header::try_from(s);
         touch(&r);
@@ -559,9 +584,7 @@ fn op_auto(input: &[u8]) -> String {
         && HeaderResult::from(v2::Header::try_from(input)) == HeaderResult::V2(v2::Header::try_from(input))
         && HeaderResult::from(v1::Header::try_from(input)) == HeaderResult::V1(v1::Header::try_from(input))
         && r == HeaderResult::parse(input);
-    if !from_ok {
-        return "from-impls-disagree".to_string();
-    }
+
     match &r {
         HeaderResult::V1(Err(e)) => touch_err(e),
         HeaderResult::V2(Err(e)) => touch_err(e),
@@ -572,7 +595,7 @@ fn op_auto(input: &[u8]) -> String {
         HeaderResult::V1(x) => format!("v1 {}", v1_bin_result(x)),
         HeaderResult::V2(x) => format!("v2 {}", v2_result(x)),
     };
-    format!("{} ainc={} acomp={}", inner, b01(inc), b01(comp))
+    format!("{} ainc={} acomp={} from={}", inner, b01(inc), b01(comp), b01(from_ok))
 }
 
 fn op_tlv(input: &[u8]) -> String {
